@@ -147,6 +147,44 @@ def selector(s):
     return keccak256(s.encode())[:4]
 
 
+def observe(ch, addr, calldata, exit_name):
+    """call and extract the bytes that leave the contract through the named exit (None = not produced)"""
+    from .evm import log_tuple
+    r = ch.call(addr, calldata)
+    if exit_name in ("ret_cd", "ret_mem", "ret_sto", "ret2", "abi_encode", "abi_encode_no_tuple", "abi_encode_method_id"):
+        return r.out if r.ok else None
+    if exit_name == "event_data":
+        if r.ok and len(r.logs) == 1:
+            _, topics, data = log_tuple(r.logs[0])
+            if len(topics) != 2 or topics[1] != (7).to_bytes(32, "big"):
+                return b"bad topics " + b"".join(topics)
+            return data
+        return None
+    if exit_name == "event_indexed_topic":
+        if r.ok and len(r.logs) == 1:
+            _, topics, data = log_tuple(r.logs[0])
+            return (topics[1] if len(topics) == 2 else b"") + data
+        return None
+    if exit_name in ("extcall_calldata", "extcall2_calldata"):
+        if r.ok and len(r.logs) == 1:
+            return log_tuple(r.logs[0])[2]
+        return None
+    if exit_name in ("custom_error_revert", "r_raise", "r_assert"):
+        return None if r.ok else r.out
+    raise ValueError(exit_name)
+
+
+def replay_one(src, cfg, calldata, exit_name):
+    """re-execute one recorded case: same deployment order as run_type_config (main contract, then echo callee)"""
+    from .configs import compile_src
+    from .evm import Chain
+    c = compile_src(src, cfg, formats=("bytecode",))
+    ch = Chain(cfg.evm)
+    addr = ch.deploy(bytes.fromhex(c["bytecode"][2:]))
+    ch.set_code(None, ECHO_RUNTIME)
+    return observe(ch, addr, calldata, exit_name)
+
+
 def run_type_config(job):
     """job = (src, cfg, t, cases) with cases = list of dict(enc=[A,B,C,D,D2,WA,WB,WC] bytes).
     Returns list (per case) of dict exit -> (observed bytes | None, expected bytes) mismatches only,
@@ -178,54 +216,19 @@ def run_type_config(job):
             # the address inside D/D2 was a placeholder: patch the real echo address in
             eD = echo_int.to_bytes(32, "big") + eD[32:]
             eD2 = echo_int.to_bytes(32, "big") + eD2[32:]
-
-            def cmp(name, got, exp):
+            plan = [("ret_cd", "ret_cd", eA, eA), ("ret_mem", "ret_mem", eA, eA), ("ret_sto", "ret_sto", eA, eA),
+                    ("ret2", "ret2", eC, eC), ("event_data", "ev", eC, eC)]
+            if indexed:
+                plan.append(("event_indexed_topic", "evi", eA, eA + (9).to_bytes(32, "big")))
+            plan += [("abi_encode", "enc0", eA, wA), ("abi_encode_no_tuple", "enc1", eA, wB),
+                     ("abi_encode_method_id", "enc2", eC, wC), ("extcall_calldata", "ext", eD, sel_echo + eA),
+                     ("extcall2_calldata", "ext2", eD2, sel_echo2 + eC), ("custom_error_revert", "cerr", eC, sel_err + eC)]
+            for name, fn, data, exp in plan:
+                got = observe(ch, addr, mids[fn] + data, name)
                 out["n"] += 1
                 if got != exp:
                     out["mismatch"].append({"case": ci, "exit": name, "observed": None if got is None else got.hex(),
-                                            "expected": exp.hex()})
-
-            def call(fn, data):
-                return ch.call(addr, mids[fn] + data)
-
-            for fn in ("ret_cd", "ret_mem", "ret_sto"):
-                r = call(fn, eA)
-                cmp(fn, r.out if r.ok else None, eA)
-            r = call("ret2", eC)
-            cmp("ret2", r.out if r.ok else None, eC)
-            r = call("ev", eC)
-            got = None
-            if r.ok and len(r.logs) == 1:
-                _, topics, data = log_tuple(r.logs[0])
-                got = data
-                if len(topics) != 2 or topics[1] != (7).to_bytes(32, "big"):
-                    got = b"bad topics " + b"".join(topics)
-            cmp("event_data", got, eC)
-            if indexed:
-                r = call("evi", eA)
-                got = None
-                if r.ok and len(r.logs) == 1:
-                    _, topics, data = log_tuple(r.logs[0])
-                    got = (topics[1] if len(topics) == 2 else b"") + data
-                cmp("event_indexed_topic", got, eA + (9).to_bytes(32, "big"))
-            r = call("enc0", eA)
-            cmp("abi_encode", r.out if r.ok else None, wA)
-            r = call("enc1", eA)
-            cmp("abi_encode_no_tuple", r.out if r.ok else None, wB)
-            r = call("enc2", eC)
-            cmp("abi_encode_method_id", r.out if r.ok else None, wC)
-            r = call("ext", eD)
-            got = None
-            if r.ok and len(r.logs) == 1:
-                got = log_tuple(r.logs[0])[2]
-            cmp("extcall_calldata", got, sel_echo + eA)
-            r = call("ext2", eD2)
-            got = None
-            if r.ok and len(r.logs) == 1:
-                got = log_tuple(r.logs[0])[2]
-            cmp("extcall2_calldata", got, sel_echo2 + eC)
-            r = call("cerr", eC)
-            cmp("custom_error_revert", None if r.ok else r.out, sel_err + eC)
+                                            "expected": exp.hex(), "calldata": (mids[fn] + data).hex()})
     except Exception as e:  # noqa
         out["error"] = f"run: {type(e).__name__}: {e} {traceback.format_exc()[-800:]}"
     return out
@@ -266,7 +269,7 @@ def run_reason_config(job):
                 out["n"] += 1
                 if got != err_sel + eS:
                     out["mismatch"].append({"case": ci, "exit": fn, "observed": None if got is None else got.hex(),
-                                            "expected": (err_sel + eS).hex()})
+                                            "expected": (err_sel + eS).hex(), "calldata": (mids[fn] + data).hex()})
     except Exception as e:  # noqa
         out["error"] = f"{type(e).__name__}: {e}"[:600]
     return out
